@@ -23,7 +23,7 @@ import (
 	"verif/internal/stdpkg"
 )
 
-var paths = []string{"a/d", "b/d", "c/d", "fmt", "x/fmt", "math/rand", "crypto/rand", "q/e", "x.y/D", "os", "r/e", "local/pkg", "C"}
+var paths = []string{"a/d", "b/d", "c/d", "fmt", "x/fmt", "math/rand", "crypto/rand", "q/e", "x.y/D", "os", "r/e", "local/pkg", "C", "math/rand/v2"}
 
 type Action struct {
 	Kind string `json:"kind"` // add | render_file | render_stmt | render_group | hint_name | hint_alias | anon | prefix
@@ -50,7 +50,10 @@ func ref(t *rapid.T) *recipe.Node {
 
 // genStmt draws a pool statement. decl = usable as a top-level declaration.
 func genStmt(t *rapid.T) *recipe.Node {
-	switch rapid.IntRange(0, 9).Draw(t, "stmtkind") {
+	switch rapid.IntRange(0, 10).Draw(t, "stmtkind") {
+	case 10: // values that come from callbacks (an id allocator): asked once, when the statement is built
+		return recipe.S().C("Var").C("Id", "_").C("Op", "=").C("Index").C("Interface").C("Values",
+			recipe.S().C("LitFunc", recipe.V(rapid.IntRange(1, 99).Draw(t, "litfunc"))), ref(t), recipe.S().C("LitRuneFunc", recipe.Rune('x')), recipe.S().C("LitByteFunc", recipe.Byte(7)))
 	case 9: // a struct whose field carries a tag with keys that differ in letter case only
 		tag := []recipe.TagKV{{K: "json", V: "a"}, {K: "JSON", V: "b"}, {K: "Json", V: "c"}, {K: "xml", V: "d"}, {K: "XML", V: "e"}}
 		k := rapid.IntRange(2, len(tag)).Draw(t, "ntagkeys")
